@@ -113,7 +113,8 @@ PROPS = {
     },
     'C02': {
         'steps': [{'script': 'corr_graph.py', 'timeout': 1500, 'timeout_thorough': 6000}],
-        'required_theorems': ['C02_insertion_rewires_only_listed', 'C02_signature_follows_output'],
+        'required_theorems': ['C02_insertion_rewires_only_listed', 'C02_signature_follows_output',
+                              'C02_transform_graph_preserves_skeleton', 'C02_pipeline_preserves_skeleton'],
         'rule': GRAPH_RULE,
         'trusted_base': COMMON_TB + GRAPH_TB,
         'assumptions': GRAPH_ASSUME + [
